@@ -359,7 +359,13 @@ def checkStream (fs : List Family) (parser src : String) (tu skip st : Bool) (ou
     if proj (fun x => { x with st := 0 }) g == proj (fun x => { x with st := 0, ex := escEx x.ex }) w then
       some s!"violation roundtrip kind=om-exemplar-escaped {ctx}"
     else if proj (fun x => { x with st := 0, ex := x.ex.map fun e => { e with ts := none } }) g ==
-            proj (fun x => { x with st := 0, ex := x.ex.map fun e => { e with ts := none } }) w then
+            proj (fun x => { x with st := 0, ex := x.ex.map fun e => { e with ts := none } }) w &&
+            (g.zip w).all (fun p => match p.1.ex, p.2.ex with
+              | some a, some b => (match a.ts, b.ts with
+                | some x, some y => (x - y).natAbs ≤ 1
+                | none, none => true
+                | _, _ => false)
+              | _, _ => true) then
       some s!"violation roundtrip kind=exemplar-timestamp-precision {ctx}"
     else some s!"violation roundtrip kind=exemplar {ctx}"
   else if st && g != w then
